@@ -19,9 +19,10 @@ C20 — kernel-checked witnesses.
   (one height per label, `verifyL` passes: the label-height theorems apply) but its x87 depth
   reaches 9, which `Effect.checkBody` rejects — `C20_function_Statement` is false.  Region:
   `x87Deep` (Model/C20Flow.lean): the evaluation needs more than eight x87 registers.
-* `C20_checker_incomplete`: `C20_function_Statement` is also false for a reason that is not the
-  compiler's: `checkBody` infers label heights in three passes, a chain of five labels that are only
-  reached backwards needs four.  (`FnBalanced` — some labelling passes — is what the theorems prove.)
+* `C20_checker_incomplete_repaired`: `checkBody` used to infer label heights in three passes; a chain
+  of five labels that are only reached backwards needs four — a latent false alarm of the check, not a
+  defect of the compiler.  `checkBody` now iterates to a fixpoint and is proved complete
+  (`C20_checkBody_complete`); the witness shows the old verdict and the new one.
 * `C20_fixed_*`: the two defects repaired by /repo commit 5874e28, replayed on the model: with the
   old arms the effect is wrong, with the current arms it is right.
 -/
@@ -217,17 +218,21 @@ theorem C20_finding_x87_depth_overflow : ¬ C20_function_Statement := by
     rw [this] at hc
     cases hc.1
 
-/-! ### the executable check is incomplete (not a defect of the compiler) -/
+/-! ### the executable check was incomplete (not a defect of the compiler; repaired in the check) -/
 
 /-- `goto A; D: goto E; C: goto D; B: goto C; A: goto B; E:` as a control-flow skeleton: balanced (every
-    label at height 0), but `checkBody`'s three inference passes give `E` no height -/
+    label at height 0), but three inference passes give `E` no height -/
 def chainSteps : List Step :=
   [.jump "A", .label "D", .jump "E", .label "C", .jump "D", .label "B", .jump "C", .label "A", .jump "B", .label "E"]
 
-theorem C20_checker_incomplete :
+/-- a latent false alarm of the check, repaired: with three inference passes (`inferN 3`, the checker
+    as it was) the balanced skeleton is rejected; the fixpoint iteration (`inferred`, what `checkBody`
+    runs now; complete by `C20_checkBody_complete`) accepts it -/
+theorem C20_checker_incomplete_repaired :
     isErr (verify (inferN 3 chainSteps []) chainSteps (some H.zero)) = true ∧
     isErr (verifyL [("A", H.zero), ("B", H.zero), ("C", H.zero), ("D", H.zero), ("E", H.zero)] chainSteps
-      (some H.zero)) = false := by
+      (some H.zero)) = false ∧
+    isErr (verify (inferred chainSteps) chainSteps (some H.zero)) = false := by
   decide
 
 /-! ### repaired by 5874e28 ("keep the x87 register stack balanced") -/
